@@ -63,6 +63,8 @@ func cmdRun(args []string) error {
 	fs.IntVar(&r.maxStack, "maxstack", 0, "debug.SetMaxStack in children (0 = Go default)")
 	fs.StringVar(&r.cc, "cc", "gcc", "C compiler")
 	maxConfirm := fs.Int("max-confirm-per-key", 6, "individual confirmations per failure key")
+	par := fs.Int("par", 8, "individual runs in parallel")
+	individual := fs.Bool("individual", false, "no batches: every source alone in its own process")
 	quiet := fs.Bool("q", false, "quiet")
 	fs.Parse(args)
 	r.self, _ = os.Executable()
@@ -87,6 +89,12 @@ func cmdRun(args []string) error {
 
 	// 1. batches in killable children
 	pending := srcs
+	if *individual {
+		pending = nil
+		for _, s := range srcs {
+			suspects = append(suspects, s.ID)
+		}
+	}
 	for len(pending) > 0 {
 		n := r.batch
 		if n > len(pending) {
@@ -119,84 +127,68 @@ func cmdRun(args []string) error {
 		}
 	}
 
-	// 2. confirm every non-ordinary outcome by an individual run (4x budget, own process).
-	//    At most max-confirm-per-key per key; sources in flight at a crash are all confirmed.
-	perKey := map[string]int{}
-	var toConfirm []int
-	for _, id := range suspects {
-		res := results[id]
-		if res == nil || res.Fail == nil || res.Fail.Outcome == "timeout" {
-			toConfirm = append(toConfirm, id)
-			continue
-		}
-		if res.Fail.Outcome == "tooling" {
-			continue
-		}
-		if perKey[res.Fail.Key] < *maxConfirm {
-			perKey[res.Fail.Key]++
-			toConfirm = append(toConfirm, id)
-		}
-	}
-	// timeouts are expensive: confirm at most 12 of them, report the rest as unconfirmed duplicates
-	nTimeout := 0
-	var confirmList []int
-	for _, id := range toConfirm {
-		if res := results[id]; res != nil && res.Fail != nil && res.Fail.Outcome == "timeout" {
-			nTimeout++
-			if nTimeout > 12 {
-				continue
-			}
-		}
-		confirmList = append(confirmList, id)
-	}
-	confirmed := map[int]bool{}
+	// 2. confirm every non-ordinary outcome by an individual run (4x budget,
+	//    own process).  Wave 1: every source that was in flight at a crash and
+	//    up to max-confirm-per-key sources per failure key.  A key that was
+	//    reproduced at least once stands for the rest of its sources (their
+	//    batch record is kept); the sources of a key that was NOT reproduced
+	//    (watchdogs firing on an overloaded machine) are all re-run alone.
 	var mu sync.Mutex
-	sem := make(chan struct{}, 8)
-	var wg sync.WaitGroup
-	for _, id := range confirmList {
-		wg.Add(1)
-		sem <- struct{}{}
-		go func(id int) {
-			defer wg.Done()
-			defer func() { <-sem }()
-			res := r.confirm(byID[id])
-			mu.Lock()
-			r.stats.Confirms++
-			old := results[id]
-			if old != nil && old.Fail != nil && (res.Fail == nil) {
-				r.stats.Unconfirmed++
-				r.log("source %d: %s in the batch run was NOT reproduced individually; taking the individual run", id, old.Fail.Key)
-			}
-			results[id] = res
-			confirmed[id] = true
-			mu.Unlock()
-		}(id)
-	}
-	wg.Wait()
-	// Unconfirmed leftovers: a failure whose key was confirmed on other
-	// sources stays; one whose key was never reproduced is dropped to what
-	// could be established (events before the failing stage).
-	confirmedKeys := map[string]bool{}
-	for id := range confirmed {
-		if f := results[id].Fail; f != nil {
-			confirmedKeys[f.Key] = true
+	runAlone := func(ids []int) {
+		sem := make(chan struct{}, *par)
+		var wg sync.WaitGroup
+		for _, id := range ids {
+			wg.Add(1)
+			sem <- struct{}{}
+			go func(id int) {
+				defer wg.Done()
+				defer func() { <-sem }()
+				res := r.confirm(byID[id])
+				mu.Lock()
+				r.stats.Confirms++
+				if old := results[id]; old != nil && old.Fail != nil && res.Fail == nil {
+					r.stats.Unconfirmed++
+					r.log("source %d: %s in the batch run was not reproduced alone; the individual run counts", id, old.Fail.Key)
+				}
+				results[id] = res
+				mu.Unlock()
+			}(id)
 		}
+		wg.Wait()
 	}
+	batchKey := map[int]string{}
+	perKey := map[string]int{}
+	var wave1, rest []int
 	for _, id := range suspects {
-		if confirmed[id] {
-			continue
-		}
 		res := results[id]
-		if res == nil {
-			results[id] = &Result{ID: id, Fail: &Failure{Stage: "?", Outcome: "tooling", Msg: "in flight at a crash and not confirmed", Key: "tooling"}}
-			continue
-		}
-		if res.Fail != nil && res.Fail.Outcome != "tooling" && !confirmedKeys[res.Fail.Key] {
-			r.log("source %d: failure %s never confirmed; dropping the unconfirmed event", id, res.Fail.Key)
-			res.Events = res.Events[:len(res.Events)-1]
-			res.Fail = &Failure{Stage: res.Fail.Stage, Outcome: "tooling", Msg: "unconfirmed " + res.Fail.Key, Key: "tooling"}
+		switch {
+		case res == nil || res.Fail == nil:
+			batchKey[id] = "in-flight"
+			wave1 = append(wave1, id)
+		case res.Fail.Outcome == "tooling":
+		case perKey[res.Fail.Key] < *maxConfirm:
+			batchKey[id] = res.Fail.Key
+			perKey[res.Fail.Key]++
+			wave1 = append(wave1, id)
+		default:
+			batchKey[id] = res.Fail.Key
+			rest = append(rest, id)
 		}
 	}
+	runAlone(wave1)
+	reproduced := map[string]bool{}
+	for _, id := range wave1 {
+		if f := results[id].Fail; f != nil && f.Outcome != "tooling" && f.Key == batchKey[id] {
+			reproduced[f.Key] = true
+		}
+	}
+	var wave2 []int
+	for _, id := range rest {
+		if !reproduced[batchKey[id]] {
+			wave2 = append(wave2, id)
+		}
+	}
+	runAlone(wave2)
 
 	// 3. the C compiler on every accepted program
 	if err := r.ccompile(srcs, results); err != nil {
